@@ -1,8 +1,14 @@
 package checks
 
 import (
+	"strings"
+
 	"bytes"
 	"fmt"
+	"github.com/idena-network/idena-go/api"
+	"github.com/idena-network/idena-go/consensus"
+	"github.com/idena-network/idena-go/protocol"
+	"github.com/idena-network/idena-go/stats/collector"
 	"sort"
 
 	"github.com/idena-network/idena-go/blockchain/types"
@@ -257,6 +263,15 @@ func histDigest(app *appstate.AppState, addrs []common.Address) string {
 	return s
 }
 
+// contractDigest: balances and stakes of the run's contracts as a view shows them.
+func contractDigest(app *appstate.AppState, s *scen.Scn) string {
+	var sb strings.Builder
+	for _, c := range s.Contracts {
+		fmt.Fprintf(&sb, "contract %x bal=%v stake=%v\n", c.Addr[:4], app.State.GetBalance(c.Addr), app.State.GetContractStake(c.Addr))
+	}
+	return sb.String()
+}
+
 func runC13(r *vfw.Run) {
 	if r.Choose("c13.kind", 3) == 0 {
 		n := 1 + r.Choose("c13.nseq", 20)
@@ -265,8 +280,11 @@ func runC13(r *vfw.Run) {
 		}
 		return
 	}
-	o := scen.Opts{MinIdent: 2, MaxIdent: 14, CeremonySoon: true}
+	o := scen.Opts{MinIdent: 2, MaxIdent: 14, CeremonySoon: true, Contracts: r.Choose("c13.contracts", 2) == 0}
 	lr := newLedgerRun(r, o, 25, 40)
+	if o.Contracts {
+		lr.l.Mix.Contracts = 3
+	}
 	if r.Tier == "thorough" && r.Choose("c13.long", 5) == 0 {
 		lr.rounds = 104 + r.Choose("c13.longrounds", 15) // version pruning
 		r.Probe("long_run_with_pruning")
@@ -354,6 +372,62 @@ func runC13(r *vfw.Run) {
 	}, func(rr *scen.RoundResult) {
 		n0 := lr.nodes[0]
 		n0.Do(func() { recorded[rr.Height] = histDigest(n0.App, addrs) })
+		// read-only RPC queries (fee and contract estimation) through the real api package: they may change neither the
+		// canonical state nor what read-only views of the head return afterwards
+		if r.Choose("c13.apiquery", 2) == 0 {
+			n := lr.nodes[r.Choose("c13.apinode", len(lr.nodes))]
+			var tx *types.Transaction
+			n.Do(func() {
+				if lr.l.Mix.Contracts > 0 && r.Choose("c13.apicontract", 4) != 0 {
+					tx, _ = s.GenContractTx(n)
+				}
+				if tx == nil {
+					tx, _ = s.GenTx(n, lr.l.Mix)
+				}
+			})
+			if tx != nil {
+				before := canonOf(n)
+				var roBefore, roAfter string
+				h := n.Chain.Head.Height()
+				n.Do(func() {
+					if ro, e := n.App.Readonly(h); e == nil {
+						roBefore = histDigest(ro, addrs) + contractDigest(ro, s)
+					}
+				})
+				pv, _ := n.Do(func() {
+					eng := consensus.NewEngine(n.Chain, protocol.VerifNewBareHandler(), n.Props, n.Cfg, n.App, n.Votes, n.Pool, n.Sec, nil, n.OD, n.Upg, n.Ipfs, n.Bus, collector.NewStatsCollector())
+					base := api.NewBaseApi(eng, n.Pool, n.KeyStore, n.Sec, n.Ipfs)
+					bapi := api.NewBlockchainApi(base, n.Chain, n.Ipfs, n.Pool, nil, nil, nil)
+					raw, _ := tx.ToBytes()
+					var from *common.Address
+					if r.Choose("c13.apiunsigned", 2) == 0 {
+						u := *tx
+						u.Signature = nil
+						raw, _ = (&u).ToBytes()
+						snd, _ := types.Sender(tx)
+						from = &snd
+					}
+					if _, err := bapi.EstimateRawTx(raw, from); err == nil {
+						r.Probe("api_estimate_ok")
+					} else {
+						r.Probe("api_estimate_refused")
+					}
+				})
+				if pv != nil {
+					r.Probe("api_estimate_panicked")
+				}
+				same(n, before, "read-only-api-query", false)
+				n.Do(func() {
+					if ro, e := n.App.Readonly(h); e == nil {
+						roAfter = histDigest(ro, addrs) + contractDigest(ro, s)
+					}
+				})
+				if roBefore != roAfter {
+					r.Violate("C13:read-only-query-changed-what-read-only-views-return", "node %d at h=%d after bcn_estimateRawTx of a type-%d transaction (amount %v): %s", n.ID, h, tx.Type, tx.Amount, oracle.FirstTextDiff(roBefore, roAfter))
+				}
+				r.Fault("read_only_api_query")
+			}
+		}
 		// historical reads of retained heights on every replica
 		for k := 0; k < 2; k++ {
 			n := lr.nodes[r.Choose("c13.histnode", len(lr.nodes))]
